@@ -42,6 +42,7 @@ type c12Case struct {
 	WRand        int    `json:"w_rand"`
 	LogMode      string `json:"log_mode"`
 	OddStatus    int    `json:"odd_status"`
+	Handler      bool   `json:"handler"` // the proxy is served through its http.Handler front end (net/http server) instead of martian's own connection loop
 }
 
 var c12FaultsByKind = map[string][]string{
@@ -72,6 +73,7 @@ func genC12(t *tape.Tape, tier string) any {
 	c.HTTP10 = t.Chance(1, 10)
 	c.LogMode = []string{"", "none", "short-url", "url", "headers", "body", "errors"}[t.Pick(3, 1, 1, 1, 2, 2, 1)]
 	c.OddStatus = t.Intn(6)
+	c.Handler = (c.Kind == "plain" || c.Kind == "upstream") && t.Chance(1, 5)
 	c.WOne = t.Pick(6, 2, 1)
 	c.WRand = t.Pick(2, 4, 2) * 2
 	return c
@@ -425,6 +427,7 @@ func runC12(env *core.Env, ci any) {
 			cfg.ProxyLocalhost = forwarder.AllowProxyLocalhost
 			cfg.ConnectTimeout = time.Duration(c.ConnectTO) * time.Second
 			cfg.LogHTTPMode = httplog.Mode(c.LogMode)
+			cfg.TestingHTTPHandler = c.Handler
 			switch c.Kind {
 			case "upstream", "connect-upstream":
 				cfg.UpstreamProxy = &url.URL{Scheme: "http", Host: "upstream.example:8080"}
@@ -758,7 +761,7 @@ func init() {
 		Gen: genC12, Run: runC12,
 		Shape: func(ci any) string {
 			c := ci.(*c12Case)
-			return fmt.Sprintf("%s/%s/%s/b%d/%s/before%d/ct%d/dt%d/h10%v", c.Kind, c.Fault, c.RespKind, c.BodyLen, c.Method, c.Before, c.ConnectTO, c.DialTO, c.HTTP10)
+			return fmt.Sprintf("%s/%s/%s/b%d/%s/before%d/ct%d/dt%d/h10%v/hd%v", c.Kind, c.Fault, c.RespKind, c.BodyLen, c.Method, c.Before, c.ConnectTO, c.DialTO, c.HTTP10, c.Handler)
 		},
 		Real:        append([]string{"http_proxy_errors.go status mapping, martian writeErrorResponse / connect error paths, dialvia, net/http Transport error paths, crypto/tls verification"}, realForwarder...),
 		Stub:        stubCommon,
